@@ -152,29 +152,51 @@ def make_pair(mod, spec):
         def impl(k=k, seen=seen):
             # both calls *and* both oracle evaluations run inside the scope: several oracles call the library again
             # on their own copies of the inputs, and those copies are pooled per call site like the adapter's
-            del seen[:]
-            with share.scope(_adapter_modules(mod), getattr(mod, "SHARE_VALUE_CLASSES", share.VALUE_CLASSES)) as pool:
+            classes = getattr(mod, "SHARE_VALUE_CLASSES", share.VALUE_CLASSES)
+            for np_sites in (True, False):
+                del seen[:]
                 try:
-                    for a in _as_list(mod.make(first)):
-                        if not a.model_only:
-                            ra = canon.call(a.impl)
-                            if a.oracle is not None and ra is not None:
-                                a.oracle(ra)
-                except Exception:
-                    pass
-                pool.scribble()
-                pool.phase = 1
-                b = _as_list(mod.make(second))[k]
-                try:
-                    rb = b.impl()
-                    if b.oracle is not None:
+                    with share.scope(_adapter_modules(mod), classes, np_sites=np_sites) as pool:
                         try:
-                            seen.extend(b.oracle(("ok", rb)) or [])
-                        except Exception:
-                            pass
-                    return rb
-                finally:
-                    PAIR_STATS.update(pool.stats)
+                            for a in _as_list(mod.make(first)):
+                                if a.model_only:
+                                    continue
+                                try:
+                                    ra = ("ok", a.impl())
+                                except Exception as e:
+                                    if share.adapter_write(e):
+                                        raise share.AdapterWrite()
+                                    ra = None
+                                if a.oracle is not None and ra is not None:
+                                    a.oracle(ra)
+                        except share.AdapterWrite:
+                            raise
+                        except Exception as e:
+                            if share.adapter_write(e):
+                                raise share.AdapterWrite()
+                        pool.scribble()
+                        pool.phase = 1
+                        try:
+                            b = _as_list(mod.make(second))[k]
+                            rb = b.impl()
+                        except Exception as e:
+                            if share.adapter_write(e):
+                                raise share.AdapterWrite()
+                            raise
+                        finally:
+                            PAIR_STATS.update(pool.stats)
+                        if b.oracle is not None:
+                            try:
+                                seen.extend(b.oracle(("ok", rb)) or [])
+                            except Exception as e:
+                                if share.adapter_write(e):
+                                    raise share.AdapterWrite()
+                        return rb
+                except share.AdapterWrite:
+                    if not np_sites:
+                        raise
+                    PAIR_STATS.update({"rebuilt_without_adapter_arrays": 1})
+                    continue
 
         def oracle(r, b0=b0, seen=seen):
             out = list(seen)
